@@ -13,7 +13,7 @@ import valgen
 import xv
 from xv import log
 
-CORPUS_VERSION = "21"
+CORPUS_VERSION = "22"
 
 BOUNDARY = [0, 1, 2, 3, 0xffff, 0x10000, 0x7fffffff, 0x80000000, 0xfffffffe, 0xffffffff]
 
@@ -151,8 +151,10 @@ def quick_specs(seed, tier):
         "enum ftype { F_REG = 1, F_DIR = 2, F_LNK = 5, F_BIG = 0x7fffffff };\nconst ZERO = 0;\n"
         "union fmix switch (unsigned int k) { case 0: case F_REG: unsigned int size; case F_DIR: case 7: hyper h; case F_LNK: void; case F_BIG: case 9: void; default: void; };\n"
         "union fmix2 switch (int k) { case ZERO: case F_DIR: int a; case F_REG: void; };\n"
-        "union fmix3 switch (unsigned int k) { case F_LNK: case F_REG: case 3: string s; default: unsigned hyper rest; };\n"
-        "struct fholder { fmix a<>; fmix2 b; fmix3 c[2]; };\n",
+        "struct fholder { fmix a<>; fmix2 b; };\n",
+        "enum gtype { G_A = 1, G_B = 4 };\n"
+        "union gmix switch (unsigned int k) { case G_B: case G_A: case 3: string s; default: unsigned hyper rest; };\n"
+        "struct gholder { gmix c[2]; };\n",
         # mutual recursion with the opaque data declared late (the generic index must not depend on
         # which member of a cycle is visited first)
         "const MAX_NAME = 8;\nstruct folder { unsigned int id; fentry entries<>; opaque acl<>; };\n"
